@@ -5,6 +5,9 @@ F = "desolver/utilities/optimizer.py"
 
 TOLV = "ite(tol < eps, eps, tol)"        # the tolerance the code actually uses (tol clipped from below by D.epsilon)
 SC = "apply(f, bounds[0]) * apply(f, bounds[1]) < 0"      # strict sign change over the bracket
+# width a converged bracket may have: the requested tolerance, but never less than the spacing of floats at the bracket (a
+# tolerance of one D.epsilon is below that spacing for |x| >= 4: an absolute test can then never be met -- repaired defect F9b)
+WIDTH = lambda tol: "abs(b - a) <= max(" + tol + ", eps * max(abs(a), abs(b)))"
 
 BRENT_INV = [
     "fa == apply(f, a) and fb == apply(f, b)",
@@ -12,7 +15,7 @@ BRENT_INV = [
     "abs(fb) <= abs(fa)",
     "implies(apply(f, bounds[0]) * apply(f, bounds[1]) <= 0, fa * fb <= 0)",
     "3 <= numiter and numiter <= 63",
-    "implies(conv, fb == 0 or abs(b - a) < tol)",
+    "implies(conv, fb == 0 or " + WIDTH("tol") + ")",
     "tol == " + TOLV.replace("tol", "old(tol)") if False else "tol >= eps",
 ]
 
@@ -26,9 +29,9 @@ brentsroot = Contract(
         # P1 the returned point lies inside the bracket
         "between(result[0], bounds[0], bounds[1])",
         # P4 success => |f(root)| <= tol
-        "implies(result[1], abs(apply(f, result[0])) <= " + TOLV + " or (defined('conv') and fa * fb <= 0 and abs(b - a) < " + TOLV + "))",
+        "implies(result[1], abs(apply(f, result[0])) <= " + TOLV + " or (defined('conv') and fa * fb <= 0 and " + WIDTH(TOLV) + "))",
         # P2 sign change + loop left through its convergence test => a sign change lies within tol of the root
-        "implies(defined('conv') and " + SC + " and conv, fb == 0 or (fa * fb <= 0 and abs(b - a) < " + TOLV + " and result[0] == b))",
+        "implies(defined('conv') and " + SC + " and conv, fb == 0 or (fa * fb <= 0 and " + WIDTH(TOLV) + " and result[0] == b))",
         # cap exit: still a sign change between the returned end points (both inside the bracket)
         "implies(defined('conv') and " + SC + ", fa * fb <= 0 and result[0] == b and between(a, bounds[0], bounds[1]))",
         # P5 sign change + converged => success reported, whatever the scale of f
@@ -48,9 +51,9 @@ VEC_INV = [
     "implies(conv, fa * fb < 0)",
     "implies(" + SC + ", fa * fb <= 0)",
     "3 <= numiter and implies(conv, numiter <= 64)",
-    "implies(" + SC + " and not conv, fb == 0 or abs(b - a) < tol or numiter >= 64)",
+    "implies(" + SC + " and not conv, fb == 0 or " + WIDTH("tol") + " or numiter >= 64)",
     "tol >= eps",
-    "implies(true_conv, abs(fb) <= tol or (fa * fb <= 0 and abs(b - a) < tol))",
+    "implies(true_conv, abs(fb) <= tol or (fa * fb <= 0 and " + WIDTH("tol") + "))",
     "implies(" + SC + " and not conv and numiter < 64, true_conv)",
     "implies(apply(f, bounds[0]) * apply(f, bounds[1]) >= 0, not conv)",
     "implies(apply(f, bounds[0]) * apply(f, bounds[1]) > 0, fa * fb > 0)",
@@ -64,8 +67,8 @@ brentsrootvec = Contract(
     requires=[],
     ensures=[
         "between(result[0], bounds[0], bounds[1])",
-        "implies(result[1], abs(apply(f, result[0])) <= " + TOLV + " or (fa * fb <= 0 and abs(b - a) < " + TOLV + "))",
-        "implies(" + SC + " and numiter < 64, fb == 0 or (fa * fb <= 0 and abs(b - a) < " + TOLV + " and result[0] == b))",
+        "implies(result[1], abs(apply(f, result[0])) <= " + TOLV + " or (fa * fb <= 0 and " + WIDTH(TOLV) + "))",
+        "implies(" + SC + " and numiter < 64, fb == 0 or (fa * fb <= 0 and " + WIDTH(TOLV) + " and result[0] == b))",
         "implies(" + SC + ", fa * fb <= 0 and result[0] == b and between(a, bounds[0], bounds[1]))",
         "implies(" + SC + " and numiter < 64, result[1])",
         "implies(apply(f, bounds[0]) * apply(f, bounds[1]) > 0 and result[1], abs(apply(f, result[0])) <= " + TOLV + ")",
